@@ -1067,7 +1067,9 @@ func (c *Compiler) compileList(node *ast.List) error {
 func (c *Compiler) compileMap(node *ast.Map) error {
 	items := node.Items()
 	count := len(items)
-	for k, v := range items {
+	// Evaluate the entries in source order (the AST holds them in a Go map)
+	for _, k := range node.SortedKeys() {
+		v := items[k]
 		switch k := k.(type) {
 		case *ast.String:
 			if err := c.compile(k); err != nil {
